@@ -44,6 +44,18 @@ def fieldsOkB (σ : Space) (ps : List Field) : Bool :=
     | .optional => optionalOkB σ p.ty
     | .dflt _ => true)
 
+/-- `additionalProperties: <schema>` as typify renders it: the named members, then ONE flattened member (`extra`, state
+    `required`), a map with plain string keys -/
+def fieldsOkFlatB (σ : Space) (ps : List Field) : Bool :=
+  match ps.getLast? with
+  | some e =>
+    e.rename == .flatten && (match e.state with | .required => true | _ => false) &&
+    (match σ.get e.ty with
+     | some ⟨.map k _, _, _⟩ => (match σ.get k with | some ⟨.string, _, _⟩ => true | _ => false)
+     | _ => false) &&
+    fieldsOkB σ ps.dropLast
+  | none => false
+
 def variantOkB (σ : Space) (tag : Tag) (v : Variant) : Bool :=
   match v.details with
   | .simple => true
@@ -58,7 +70,7 @@ def variantOkB (σ : Space) (tag : Tag) (v : Variant) : Bool :=
 /-- per-entry condition -/
 def entryOkB (σ : Space) (ent : Entry) : Bool :=
   match ent.details with
-  | .struct _ ps _ _ => fieldsOkB σ ps
+  | .struct _ ps _ _ => fieldsOkB σ ps || fieldsOkFlatB σ ps
   | .option t' =>
     (match σ.get t' with
      | some ⟨.option _, _, _⟩ => true
